@@ -81,10 +81,27 @@ func summariseInit(p *packages.Package, fd *ast.FuncDecl) (steps []sgprStep, lan
 						walk(st, ctx)
 					}
 				case *ast.IfStmt:
-					c := normExpr(types.ExprString(x.Cond))
-					walk(x.Body, ctx+"["+c+"]")
+					// `if !(c) { B } else { A }` is `if c { A } else { B }`
+					cond, neg := ast.Expr(x.Cond), false
+					for {
+						if p, ok := cond.(*ast.ParenExpr); ok {
+							cond = p.X
+							continue
+						}
+						if u, ok := cond.(*ast.UnaryExpr); ok && u.Op == token.NOT {
+							cond, neg = u.X, !neg
+							continue
+						}
+						break
+					}
+					c := normExpr(types.ExprString(cond))
+					pos, negc := ctx+"["+c+"]", ctx+"[!"+c+"]"
+					if neg {
+						pos, negc = negc, pos
+					}
+					walk(x.Body, pos)
 					if x.Else != nil {
-						walk(x.Else, ctx+"[!"+c+"]")
+						walk(x.Else, negc)
 					}
 				case *ast.ExprStmt:
 					walk(x.X, ctx)
@@ -138,6 +155,27 @@ func opcodeSet(p *packages.Package, fd *ast.FuncDecl) map[int64]bool {
 		}
 	}
 	return out
+}
+
+// opcodeSetSSA: the opcodes (0..255) for which the dispatcher reaches a handler rather
+// than its panic, decided on the SSA form per opcode value (a switch and an if chain are
+// the same there). ok is false when some branch could not be decided.
+func opcodeSetSSA(fn *ssa.Function) (map[int64]bool, bool) {
+	out := map[int64]bool{}
+	if fn == nil {
+		return out, false
+	}
+	isOp := isLoadOfField("Opcode")
+	for op := int64(0); op < 256; op++ {
+		r := opPath(fn, isOp, op)
+		if !r.decided {
+			return out, false
+		}
+		if !r.panics && (len(r.calls) > 0 || len(r.invokes) > 1) {
+			out[op] = true
+		}
+	}
+	return out, true
 }
 
 func setStr(m map[int64]bool) string {
@@ -339,8 +377,17 @@ func runC02(c *core.Ctx) core.Meta {
 	// ---------------- R02.3 memory-instruction coverage agrees ----------------
 	st3 := c.Rule("R02.3", "the scalar-memory opcodes executed by both ALUs equal those executed by the timing scalar unit; every FLAT opcode of the ALUs is accepted by the timing vector memory unit; every FLAT load whose emulation handler transforms the loaded bytes has a dedicated write-back case in timing", 4)
 	eS := opcodeSet(c.Pkg(emuPkg), findFuncDecl(c.Pkg(emuPkg), "ALUImpl.runSMEM"))
+	if ss, ok := opcodeSetSSA(c.SSAFunc(emuPkg, "ALUImpl.runSMEM")); ok {
+		eS = ss
+	}
 	cS := opcodeSet(c.Pkg(cdna3Pkg), findFuncDecl(c.Pkg(cdna3Pkg), "ALU.runSMEM"))
+	if ss, ok := opcodeSetSSA(c.SSAFunc(cdna3Pkg, "ALU.runSMEM")); ok {
+		cS = ss
+	}
 	tS := opcodeSet(c.Pkg(cuPkg), findFuncDecl(c.Pkg(cuPkg), "ScalarUnit.executeSMEMInst"))
+	if ss, ok := opcodeSetSSA(c.SSAFunc(cuPkg, "ScalarUnit.executeSMEMInst")); ok {
+		tS = ss
+	}
 	if len(eS) == 0 || len(tS) == 0 {
 		c.Report(core.Finding{Rule: "R02.3", Kind: "anchor", Pkg: cuPkg, Func: "ScalarUnit.executeSMEMInst", Detail: "anchor", Msg: "SMEM dispatch not found"})
 	}
@@ -395,8 +442,17 @@ func runC02(c *core.Ctx) core.Meta {
 		})
 	}
 	eF := opcodeSet(c.Pkg(emuPkg), findFuncDecl(c.Pkg(emuPkg), "ALUImpl.runFlat"))
+	if ss, ok := opcodeSetSSA(c.SSAFunc(emuPkg, "ALUImpl.runFlat")); ok {
+		eF = ss
+	}
 	cF := opcodeSet(c.Pkg(cdna3Pkg), findFuncDecl(c.Pkg(cdna3Pkg), "ALU.runFlat"))
+	if ss, ok := opcodeSetSSA(c.SSAFunc(cdna3Pkg, "ALU.runFlat")); ok {
+		cF = ss
+	}
 	tF := opcodeSet(c.Pkg(cuPkg), findFuncDecl(c.Pkg(cuPkg), "VectorMemoryUnit.executeFlatInsts"))
+	if ss, ok := opcodeSetSSA(c.SSAFunc(cuPkg, "VectorMemoryUnit.executeFlatInsts")); ok {
+		tF = ss
+	}
 	for _, pair := range []struct {
 		name string
 		a    map[int64]bool
